@@ -91,6 +91,8 @@ def outcome_of(p):
     ev = walk.err_variant(t)
     if ev:
         return ("err", ev)
+    if walk.is_err_term(t) is True:
+        return ("err", "?")
     return ("ok", t)
 
 
@@ -491,26 +493,42 @@ def metadata_tables(an, rep):
     fields = dict(zip(agg[0]["fnames"], agg[1]))
     want = {"field_generations": {"FieldAdded"}, "made_optional_at": {"FieldMadeOptional"},
             "removed_fields": {"FieldRemoved", "FieldMadeTransient"}}
-    for fname, variants in want.items():
+    got = {k: set() for k in want}
+    # form (a): table = iter().filter_map(closure).collect()
+    for fname in want:
         closures = [x[2] for x in mir.walk_expr(fields[fname]) if x[0] == "agg" and x[1] == "closure"]
-        got = set()
         for cdef in closures:
             cb = core.bodies.get(cdef)
             if not cb:
                 continue
             for p in walk.walk(cb, core):
-                v = None
-                for a in p.atoms():
-                    if a[1][0] == "discr" and any(n == "FieldMadeTransient" for _, n in a[1][2]):
-                        v = walk.atom_variant(a)
-                        if v is None and not isinstance(a[2], int):
-                            v = "other"
+                v = _evolution_variant(p)
                 ret = strip_refs(p.outcome[1]) if p.outcome[0] == "return" else None
-                some = ret is not None and ret[0] == "agg" and ret[3] == "Some"
-                if some and v:
-                    got.add(v)
-        R.check(got == variants, b.key, "table " + fname, "`%s` is populated from %s, documented: %s" %
-                (fname, sorted(got), sorted(variants)), None, sample={"table": fname, "from": sorted(got)})
+                if ret is not None and ret[0] == "agg" and ret[3] == "Some" and v:
+                    got[fname].add(v)
+    # form (b): one loop with a match that inserts into the tables
+    paths = walk.walk(b, core, max_paths=8000)
+    final = [p for p in paths if p.outcome[0] == "return"]
+    site_of = {}
+    for p in final:
+        ret = strip_refs(p.outcome[1])
+        if ret[0] == "agg" and ret[2] and ret[2].endswith("AdtMetadata"):
+            for fname, term in zip(agg[0]["fnames"], ret[4]):
+                t_ = strip_refs(term)
+                if t_[0] == "call" and fname in want:
+                    site_of[t_[4]] = fname
+    for p in paths:
+        v = _evolution_variant(p)
+        if not v:
+            continue
+        for c in p.calls():
+            if c[2].endswith("::insert") and c[5]:
+                recv = strip_refs(c[5][0])
+                if recv[0] == "call" and recv[4] in site_of:
+                    got[site_of[recv[4]]].add(v)
+    for fname, variants in want.items():
+        R.check(got[fname] == variants, b.key, "table " + fname, "`%s` is populated from %s, documented: %s" %
+                (fname, sorted(got[fname]), sorted(variants)), None, sample={"table": fname, "from": sorted(got[fname])})
     v = strip_refs(fields["version"])
     R.check(v[0] == "cast" and "Sub" in show(v) and "len" in show(v), b.key, "version", "version is not steps.len() - 1: %s" % show(v))
     # alias rule, everywhere
@@ -534,6 +552,18 @@ def metadata_tables(an, rep):
                     mir.loc(fb, 0), sample={"fn": fb.key, "aliases agree": True})
     R.floor("functions matching on Evolution with both aliases", n, 2)
     return R
+
+
+def _evolution_variant(p):
+    v = None
+    for a in p.atoms():
+        if a[1][0] == "discr" and any(n == "FieldMadeTransient" for _, n in a[1][2]):
+            nm = walk.atom_variant(a)
+            if nm is not None:
+                v = nm
+            elif not isinstance(a[2], int):
+                v = v or "other"
+    return v
 
 
 def _matches_evolution(b):
@@ -596,12 +626,14 @@ def step_codes(an, rep):
             if code == "size":
                 okk = arg[0] == "field" and arg[2] == "size"
             else:
-                okk = arg[0] == "const" and (arg[4] or "").endswith("::" + code)
+                okk = _signed32(guards.rng(arg)) == int(consts.get(code, "x") if consts.get(code) is not None else 99)
         subs = [c[2] for c in sig_calls(p) if "BinarySerializer>::serialize" in c[2]]
         okk = okk and subs == ([sub] if sub else [])
         R.check(okk, w.key, "arm " + v, "writer arm %s does not emit VarI32(%s)%s" % (v, code, (" then " + sub) if sub else ""),
                 None, sample={"writer arm": v, "code": code})
     R.check(seen == set(want), w.key, "arms", "writer arms found: %s" % sorted(seen))
+    codes = {"UNKNOWN": int(consts.get("UNKNOWN", "0")), "FIELD_MADE_OPTIONAL": int(consts.get("FIELD_MADE_OPTIONAL", "-1")),
+             "FIELD_REMOVED": int(consts.get("FIELD_REMOVED", "-2"))}
     got = {}
     for p in walk.walk(r, core):
         kind, what = outcome_of(p)
@@ -612,26 +644,43 @@ def step_codes(an, rep):
         if inner is None or inner[0] != "agg":
             continue
         variant = inner[3]
-        eqs = []
+        eq, ne = set(), set()
         for a in p.atoms():
             c = a[1]
-            if c[0] == "bin" and c[1] == "Eq":
-                for side in (c[2], c[3]):
-                    s_ = strip_refs(side)
-                    if s_[0] == "const" and s_[4]:
-                        eqs.append((s_[4].split("::")[-1], guards.truth(a[2])))
-        got[variant] = (eqs, [c[2] for c in sig_calls(p) if "BinaryDeserializer>::deserialize" in c[2]])
-    exp = {"Unknown": ([("UNKNOWN", True)], []),
-           "FieldMadeOptional": ([("UNKNOWN", False), ("FIELD_MADE_OPTIONAL", True)], ["<FieldPosition as BinaryDeserializer>::deserialize"]),
-           "FieldRemoved": ([("UNKNOWN", False), ("FIELD_MADE_OPTIONAL", False), ("FIELD_REMOVED", True)],
-                            ["<DeduplicatedString as BinaryDeserializer>::deserialize"]),
-           "FieldAddedToNewChunk": ([("UNKNOWN", False), ("FIELD_MADE_OPTIONAL", False), ("FIELD_REMOVED", False)], [])}
-    for variant, (eqs, subs) in exp.items():
-        g = got.get(variant)
-        okk = g is not None and dict(g[0]) == dict(eqs) and g[1] == subs
-        R.check(okk, r.key, "arm " + variant, "reader produces %s under %s reading %s; documented: %s reading %s" %
-                (variant, g and g[0], g and g[1], eqs, subs), None, sample={"reader arm": variant, "when": str(eqs)})
+            if c[0] == "discr" or "read_var_i32" not in show(c):
+                continue
+            if c[0] == "bin" and c[1] in ("Eq", "Ne"):
+                k = _signed32(guards.rng(c[3]))
+                if k is None:
+                    continue
+                tv = guards.truth(a[2])
+                (eq if (tv == (c[1] == "Eq")) else ne).add(k)
+            elif c[0] in ("ok", "field", "variant", "cast"):
+                if isinstance(a[2], int):
+                    eq.add(_signed32((a[2], a[2])))
+                else:
+                    ne.update(_signed32((x, x)) for x in a[2][1])
+        got.setdefault(variant, []).append((eq, ne, [c[2] for c in sig_calls(p) if "BinaryDeserializer>::deserialize" in c[2]]))
+    exp = {"Unknown": ("UNKNOWN", []), "FieldMadeOptional": ("FIELD_MADE_OPTIONAL", ["<FieldPosition as BinaryDeserializer>::deserialize"]),
+           "FieldRemoved": ("FIELD_REMOVED", ["<DeduplicatedString as BinaryDeserializer>::deserialize"])}
+    for variant, (cname, subs) in exp.items():
+        g = got.get(variant, [])
+        okk = bool(g) and all(e == {codes[cname]} and sb == subs for e, n, sb in g)
+        R.check(okk, r.key, "arm " + variant, "reader produces %s for codes %s reading %s; documented: code %s (= %d) reading %s" %
+                (variant, [sorted(e) for e, _, _ in g], [sb for _, _, sb in g], cname, codes[cname], subs), None,
+                sample={"reader arm": variant, "code": codes[cname]})
+    g = got.get("FieldAddedToNewChunk", [])
+    okk = bool(g) and all(not e and set(codes.values()) <= n and not sb for e, n, sb in g)
+    R.check(okk, r.key, "arm FieldAddedToNewChunk", "every other value must be a chunk size (found constraints %s)" %
+            [(sorted(e), sorted(n)) for e, n, _ in g], None, sample={"reader arm": "FieldAddedToNewChunk", "codes excluded": sorted(codes.values())})
     return R
+
+
+def _signed32(r):
+    if not r or r[0] != r[1]:
+        return None
+    v = r[0]
+    return v - (1 << 32) if v >= (1 << 31) else v
 
 
 def field_position(an, rep):
@@ -927,7 +976,10 @@ def sequence_reader(an, rep):
                 ok_read = walk.atom_variant(a) == "Ok"
             elif c[0] == "discr" and "try_from" in show(c[1]):
                 conv = walk.atom_variant(a)
-            elif "read_var_i32" in show(c) and c[0] != "discr":
+            elif "read_var_i32" in show(c) and c[0] == "bin" and c[1] in ("Eq", "Ne") and guards.rng(c[3]) in ((-1, -1), (0xFFFFFFFF, 0xFFFFFFFF)):
+                tv = guards.truth(a[2])
+                minus1 = tv if c[1] == "Eq" else (not tv)
+            elif "read_var_i32" in show(c) and c[0] not in ("discr", "bin"):
                 v = a[2]
                 if isinstance(v, int):
                     minus1 = v in (0xFFFFFFFF, -1)
@@ -960,11 +1012,10 @@ def sequence_reader(an, rep):
                 zero = tv if c[1] == "Eq" else not tv
             elif c[0] == "discr" and "<Option<T> as BinaryDeserializer>::deserialize" in show(c[1]):
                 nm = walk.atom_variant(a)
-                opt = nm if opt is None or nm in ("Some", "None") else opt
                 if nm in ("Some", "None"):
                     opt = "Ok/" + nm
-                elif nm == "Err":
-                    opt = "Err"
+                elif nm in ("Err", "Ok/Some", "Ok/None"):
+                    opt = nm
         ret = strip_refs(p.outcome[1])
         is_none = ret[0] == "agg" and ret[3] == "None"
         dec_t = called(p, "BinaryDeserializer::deserialize")
@@ -1000,6 +1051,7 @@ def sequence_reader(an, rep):
 
 
 def sequence_writer(an, rep):
+    from .g_grammar import writer_paths, split_loop
     R = rep.rule("T13", "serialize_iterator: exact size hint (min == max) -> VarI32(min via checked conversion) then the items; "
                         "otherwise VarI32(-1), (U8 1, item)*, U8 0")
     core = an.core()
@@ -1007,43 +1059,61 @@ def sequence_writer(an, rep):
     if not b:
         R.anchor_missing("serialize_iterator")
         return R
-    paths = walk.walk(b, core)
     seen = set()
-    for p in paths:
+    for ev, p in writer_paths(b, core):
         exact = None
-        has_max = None
         for a in p.atoms():
             c = a[1]
-            if c[0] == "bin" and c[1] in ("Eq", "Ne") and "size_hint" in show(c):
-                tv = guards.truth(a[2])
-                exact = tv if c[1] == "Eq" else not tv
+            s_ = show(c)
+            if "size_hint" not in s_ or (c[0] == "discr" and strip_refs(c[1])[0] == "try"):
+                continue
+            tv = guards.truth(a[2])
+            if c[0] == "bin" and c[1] in ("Eq", "Ne"):
                 l, r = show(c[2]), show(c[3])
-                R.check(("size_hint" in l and "size_hint" in r and l != r), b.key, "guard", "the exactness guard must compare "
-                        "the lower with the upper bound of size_hint(): %s %s %s" % (l, c[1], r))
-            if c[0] == "discr" and "size_hint" in show(c[1]) and strip_refs(c[1])[0] != "try":
-                has_max = walk.atom_variant(a)
-        ws = [c for c in sig_calls(p) if c[3].startswith("BinaryOutput::write_") or c[3] == "BinarySerializer::serialize"]
-        ks = [(c[3].split("::")[-1], (show(c[5][1]) if c[3] != "BinarySerializer::serialize" else "item") if len(c[5]) > 1 else "") for c in ws]
-        if exact is True and has_max == "Some":
-            if p.outcome[0] == "return" and outcome_of(p)[0] == "errprop":
-                continue
+                R.check("size_hint" in l and "size_hint" in r and l != r, b.key, "guard", "the exactness guard must compare the "
+                        "lower with the upper bound of size_hint(): %s %s %s" % (l, c[1], r))
+                exact = tv if c[1] == "Eq" else (not tv)
+            elif c[0] == "call" and c[1].endswith("PartialEq>::eq") or (c[0] == "call" and c[1].endswith("::eq")):
+                l, r = show(c[3][0]), show(c[3][1])
+                both = ("size_hint" in l and "size_hint" in r and l != r and ("Some" in l) != ("Some" in r))
+                R.check(both, b.key, "guard", "the exactness guard must compare upper with Some(lower): %s == %s" % (l, r))
+                exact = tv
+            elif c[0] == "discr":
+                v = walk.atom_variant(a)
+                if v == "None":
+                    exact = False
+        pre, body, suf = split_loop(ev)
+
+        def kinds(es):
+            out = []
+            for e in es:
+                if e[0] == "w":
+                    c_ = guards.rng(e[2])
+                    out.append((e[1], c_[0] if c_ and c_[0] == c_[1] and strip_refs(e[2])[0] in ("const", "cast") else show(e[2])))
+                elif e[0] == "sub":
+                    out.append(("item",))
+            return out
+        kp, kb, ks = kinds(pre), kinds(body) if body is not None else None, kinds(suf)
+        if exact is True:
             seen.add("known")
-            okk = bool(ks) and ks[0][0] == "write_var_i32" and "try_into" in ks[0][1] and "size_hint" in ks[0][1]
-            okk = okk and all(k[0] == "serialize" for k in ks[1:]) and not any(k[0] == "write_u8" for k in ks)
-            R.check(okk, b.key, "known form", "exact size hint must write VarI32(count) then only items: %s" % ks, None,
-                    sample={"known": [k[0] for k in ks]})
-        elif exact is False or has_max == "None":
-            if p.outcome[0] == "return" and outcome_of(p)[0] == "errprop":
-                continue
+            okk = len(kp) == 1 and kp[0][0] == "var_i32" and isinstance(kp[0][1], str) and "size_hint" in kp[0][1] and \
+                ("try_into" in kp[0][1] or "try_from" in kp[0][1])
+            if kb is not None:
+                okk = okk and kb == [("item",)] and not ks
+            else:
+                okk = okk and not ks
+            R.check(okk, b.key, "known form", "exact size hint must write VarI32(count) then only items: %s (%s)* %s" % (kp, kb, ks),
+                    None, sample={"known": "VarI32(count) item*"})
+        elif exact is False:
             seen.add("unknown")
-            okk = bool(ks) and ks[0] == ("write_var_i32", "-1")
-            rest = ks[1:]
-            if p.outcome[0] == "loopback":
-                okk = okk and rest == [("write_u8", "1"), ("serialize", "item")]
-            elif p.outcome[0] == "return":
-                okk = okk and rest == [("write_u8", "0")]
-            R.check(okk, b.key, "unknown form", "inexact size hint must write VarI32(-1), (U8 1, item)*, U8 0: %s" % ks, None,
-                    sample={"unknown": [k[0] + " " + k[1][:4] for k in ks]})
+            marker = kp[:1] in ([("var_i32", -1)], [("var_i32", 0xFFFFFFFF)])
+            if kb is not None:
+                okk = marker and len(kp) == 1 and kb == [("u8", 1), ("item",)] and \
+                    (ks == [("u8", 0)] or (p.outcome[0] == "loopback" and not ks))
+            else:
+                okk = marker and kp[1:] == [("u8", 0)] and not ks       # the path on which the iterator is already exhausted
+            R.check(okk, b.key, "unknown form", "inexact size hint must write VarI32(-1), (U8 1, item)*, U8 0: %s (%s)* %s" %
+                    (kp, kb, ks), None, sample={"unknown": "VarI32(-1) (U8 1 item)* U8 0"})
     R.check(seen == {"known", "unknown"}, b.key, "coverage", "forms found: %s" % sorted(seen))
     return R
 
@@ -1132,7 +1202,7 @@ def record_writer(an, rep):
                 continue
             v = None
             for a in p.atoms():
-                if a[1][0] == "discr" and "get_mut" in show(a[1][1]):
+                if a[1][0] == "discr" and "last_index_per_chunk" in show(a[1][1]) and strip_refs(a[1][1])[0] == "call":
                     v = walk.atom_variant(a)
             ins = [c for c in sig_calls(p) if c[2].endswith("::insert")]
             pos = [c for c in called(p, "FieldPosition::new")]
